@@ -4,7 +4,7 @@ from itertools import combinations
 from hypothesis import strategies as st
 
 from vlib import rng
-from vlib.runner import Violation, call
+from vlib.runner import Violation, call, clone_point
 
 PID = "C09"
 RULE = ("(a) Hypothesis-generated simple graphs without isolated vertices (unions of planted cliques plus random edges, "
@@ -93,6 +93,8 @@ def graph_case(draw, tier):
         # the edges may be handed over as any iterable: a list, or a one-shot iterator (zip, generator)
         c["bulk_iter"] = draw(st.sampled_from(["list", "list", "iter", "zip", "gen"]))
 
+    if draw(st.integers(0, 4)) == 4:
+        c["configure_first"] = True
     if draw(st.integers(0, 2)) == 2:
         c["prelude"] = [[draw(st.sampled_from(["lmc", "cover"])), draw(st.integers(2, 7))]
                         for _ in range(draw(st.integers(1, 2)))]
@@ -149,9 +151,11 @@ def enumerated(tier, seed):
     return out
 
 
-def run_once(edges, m0, prelude=(), bulk=0, bulk_iter="list"):
+def run_once(edges, m0, prelude=(), bulk=0, bulk_iter="list", case=None):
     from gcmpy import EECC
     net = EECC()
+    if case and case.get("configure_first"):
+        net.set_max_clique_size(m0)  # configure, then build
     if bulk:
         # the whole list in one add_edges_from call, some edges listed a second time in the other orientation (the same
         # simple graph)
@@ -173,7 +177,9 @@ def run_once(edges, m0, prelude=(), bulk=0, bulk_iter="list"):
             net.get_EECC()
             for x, y in edges:
                 net.add_edge((x, y))
-    net.set_max_clique_size(m0)
+    if not (case and case.get("configure_first") and not prelude):
+        net.set_max_clique_size(m0)
+    net = clone_point(net, case)  # the configured object may be copied / pickled before the cover is computed
     cover = net.get_EECC()
     return net, cover
 
@@ -227,7 +233,7 @@ def check(case):
         holder = {}
 
         def outcome():
-            net, cover = call("get_EECC", run_once, edges, m0, case.get("prelude") or (), case.get("bulk", 0), case.get("bulk_iter"))
+            net, cover = call("get_EECC", run_once, edges, m0, case.get("prelude") or (), case.get("bulk", 0), case.get("bulk_iter"), case)
             holder["maxc"] = validate(edges, m0, net, cover)
             return tuple(sorted(tuple(sorted(c)) for c in cover))
         try:
@@ -239,7 +245,7 @@ def check(case):
             for s in range(20):
                 with rng.scripted(ints=[], tail_seed=r["seed"] * 100 + s, budget=budget):
                     try:
-                        net, cover = call("get_EECC", run_once, edges, m0, case.get("prelude") or (), case.get("bulk", 0), case.get("bulk_iter"))
+                        net, cover = call("get_EECC", run_once, edges, m0, case.get("prelude") or (), case.get("bulk", 0), case.get("bulk_iter"), case)
                     except rng.Budget:
                         raise Violation("non-termination", f"more than {budget} tie-break draws for {nE} edges")
                 holder["maxc"] = validate(edges, m0, net, cover)
@@ -250,7 +256,7 @@ def check(case):
                else rng.scripted(ints=r["ints"], tail_seed=r.get("tail", 0), budget=budget))
         with ctx:
             try:
-                net, cover = call("get_EECC", run_once, edges, m0, case.get("prelude") or (), case.get("bulk", 0), case.get("bulk_iter"))
+                net, cover = call("get_EECC", run_once, edges, m0, case.get("prelude") or (), case.get("bulk", 0), case.get("bulk_iter"), case)
             except rng.Budget:
                 raise Violation("non-termination", f"more than {budget} tie-break draws for {nE} edges")
         maxc = validate(edges, m0, net, cover)
